@@ -658,12 +658,74 @@ pub fn run_one(seed: u64, l: &mut Local, upper_case: bool) {
     monitor_late_interface(&w.trace, w.stepping, made.horizon, l);
 }
 
+/// P5/P6 for a service that conflict resolution renamed while it was probing (the scenarios
+/// of C08 part R): under whatever names it ends up with, it reaches the announced state and
+/// is announced at least twice, one second apart, with the same records.
+pub fn renamed_case(seed: u64, l: &mut Local) {
+    let made = crate::props::c08::scenario_r(seed);
+    l.evaluations += 1;
+    let trace = &made.world.trace;
+    if trace.deaths().any(|d| matches!(d.ev, Ev::Death { panicked: true, .. })) || made.conflicts.is_empty() {
+        return;
+    }
+    l.distinct.insert(util::fnv_str(&format!("renamed|{:?}|{}", made.conflicts[0].1, made.conflicts.len())));
+    let txs = scen::tx_msgs(trace, 0);
+    let ty = scen::wire_name(&made.reg.ty_only);
+    let t_end = trace.entries[made.end_idx].t;
+    let last_conf = made.conflicts.iter().map(|(i, _, _, _)| trace.entries[*i].t).max().unwrap();
+    let first_conf = made.conflicts.iter().map(|(i, _, _, _)| trace.entries[*i].t).min().unwrap();
+    // announcements: unsolicited multicast responses carrying the type's PTR and the service's SRV (by port)
+    let query_iters = scen::query_iters(trace, 0);
+    let anns: Vec<(u64, bool, Name, Vec<String>)> = txs
+        .iter()
+        .filter(|tx| tx.out_if == Some(made.if_index) && tx.t > first_conf && tx.t < t_end && tx.msg.is_response() && tx.multicast && !query_iters.contains(&tx.iter))
+        .filter_map(|tx| {
+            let p = tx.msg.answers.iter().find(|r| r.rtype == wire::T_PTR && r.ttl > 0 && wire::names_eq_nocase(&r.name, &ty))?;
+            let RData::Ptr(x) = &p.rdata else { return None };
+            tx.msg.answers.iter().find(|r| matches!(&r.rdata, RData::Srv { port, .. } if *port == made.reg.port) && wire::names_eq_nocase(&r.name, x))?;
+            let mut content: Vec<String> = tx.msg.answers.iter().map(|r| format!("{}|{}|{}", wire::escaped(&wire::lower(&r.name)), r.rtype, render_rdata(&r.rdata))).collect();
+            content.sort();
+            Some((tx.t, tx.v4, x.clone(), content))
+        })
+        .collect();
+    let wit = || json!({"scenario": made.desc, "announcements_ms": anns.iter().map(|(t, v4, x, _)| format!("+{} {} {}", t - EPOCH, if *v4 { "v4" } else { "v6" }, wire::escaped(x))).collect::<Vec<_>>(),
+                        "trace": scen::witness_window(trace, last_conf, last_conf + 4500, 50)});
+    if t_end < last_conf + 3300 {
+        return;
+    }
+    l.act("P6");
+    // the names it ended up with are those of its last announcement: judge the announcements made under them
+    // (an earlier conflict may have been followed by announcements under names given up again later)
+    let anns: Vec<(u64, bool, Name, Vec<String>)> = match anns.last() {
+        Some((_, _, fin, fin_content)) => {
+            let (fin, fin_content) = (fin.clone(), fin_content.clone());
+            anns.iter().filter(|(_, _, x, c)| wire::names_eq_nocase(x, &fin) && *c == fin_content).cloned().collect()
+        }
+        None => Vec::new(),
+    };
+    let Some((t1, v4, name, content)) = anns.first().cloned() else {
+        l.violate(Violation::new("P6", "P6/never-announced/after-rename", "after the conflict the service was never announced").with(wit()));
+        return;
+    };
+    l.act("P5");
+    let second = anns.iter().find(|(t, f, x, _)| *f == v4 && *t >= t1 + 1000 && *t <= t1 + 1001 && wire::names_eq_nocase(x, &name));
+    match second {
+        None => l.violate(Violation::new("P5", "P5/announced-once/after-rename", format!("{} was announced at +{} ms but not again one second later", wire::escaped(&name), t1 - EPOCH)).with(wit())),
+        Some((_, _, _, c2)) => {
+            l.act("P5-content");
+            if *c2 != content {
+                l.violate(Violation::new("P5", "P5/second-announcement-differs/after-rename", "the second announcement carries other records than the first").with(wit()));
+            }
+        }
+    }
+}
+
 pub fn run(report: &Report, tier: &Tier) {
     report.set_rule(
         "registration scenarios on a simulated daemon: 1..3 interfaces (v4/v6/both, differing subnets), 1..4 services (with/without subtype, \
          shared or separate host names, fixed or automatic addresses, probing on/off), registered together or staggered by 0..1000 ms, \
          forced jitters {0,1,124,125,248,249} or seeded random, queries injected while probing, an interface appearing later; lazy and \
-         eager (10/50 ms) stepping; distinct by scenario shape",
+         eager (10/50 ms) stepping; plus the conflict scenarios of C08 part R (a service renamed while probing): announced under its final names, twice, one second apart; distinct by scenario shape",
     );
     report.assume("oversleep stepping is excluded: the probe schedule presumes the daemon is woken when it asks to be (DESIGN §6 C07)");
     for r in ["P1", "P1-authority", "P1-host", "P2", "P3", "P4", "P5", "P5-content", "P6"] {
@@ -672,7 +734,12 @@ pub fn run(report: &Report, tier: &Tier) {
     report.floor("P6-late-interface", 1);
     let seed = report.seed;
     let n: u64 = if tier.thorough { 150_000 } else { 3_000 };
-    run_parallel(report, n, threads(), tier.budget_s, |i, l| {
+    run_parallel(report, n, threads(), tier.budget_s * 0.9, |i, l| {
         run_one(util::mix(seed, 0xC07_0000 + i), l, i % 3 == 0);
+    });
+    // services renamed by a conflict while probing
+    let n2: u64 = if tier.thorough { 30_000 } else { 600 };
+    run_parallel(report, n2, threads(), tier.budget_s * 0.1, |i, l| {
+        renamed_case(util::mix(seed, 0xC07_8000 + i), l);
     });
 }
